@@ -88,13 +88,16 @@ XalanSourceTreeParserLiaison::reset()
 
     for (iterator i = m_documentMap.begin(); i != m_documentMap.end(); ++i)
     {
-        assert((*i).second != 0);
+        // The entry of a document whose registration failed
+        // (see createXalanSourceTreeDocument()) has no document.
+        if ((*i).second != 0)
+        {
+            XalanDestroy(
+                theManager,
+                *(*i).second);
 
-        XalanDestroy(
-            theManager,
-            *(*i).second);
-
-        (*i).second = 0;
+            (*i).second = 0;
+        }
     }
 
     m_documentMap.clear();
@@ -498,7 +501,19 @@ XalanSourceTreeParserLiaison::createXalanSourceTreeDocument()
     XalanSourceTreeDocument* const  theNewDocument =
         XalanSourceTreeDocument::create(getMemoryManager(), m_poolAllText);
 
-    m_documentMap[theNewDocument] = theNewDocument;
+    try
+    {
+        m_documentMap[theNewDocument] = theNewDocument;
+    }
+    catch(...)
+    {
+        // Nobody else knows about the document yet.
+        XalanDestroy(
+            getMemoryManager(),
+            *theNewDocument);
+
+        throw;
+    }
 
     return theNewDocument;
 }
